@@ -13,7 +13,7 @@ import hashlib, os, re, shutil
 from vlib import core
 
 LEVEL = "exploration"
-BUDGET = {"quick": 300, "thorough": 1500}
+BUDGET = {"quick": 900, "thorough": 3600}     # deadlines, not expected times (a loaded machine is 5-8x slower)
 
 OPTSETS_QUICK = [["-S"], ["-E"], ["-S", "-fPIC"], ["-c"], ["-S", "-fno-common", "-DX=1"], ["-M"]]
 OPTSETS_MORE = [["-E", "-DX=1", "-UX"], ["-S", "-fcommon"], ["-c", "-fPIC"], ["-MD", "-S"], ["-E", "-include", "@INC"], ["-S", "-I", "@DIR"],
